@@ -395,6 +395,9 @@ func (vc *VC) Query(o *Obligation, forCVC5 bool, withModel bool) string {
 		sb.WriteString(vc.decls.String())
 	}
 	for _, a := range vc.axioms {
+		if o.relaxAxioms && strings.HasPrefix(a, "(forall") {
+			continue
+		}
 		fmt.Fprintf(&sb, "(assert %s)\n", a)
 	}
 	fmt.Fprintf(&sb, "(assert %s)\n", o.Reach.S)
